@@ -6,8 +6,15 @@ import os, re, subprocess, sys
 
 LEAN = os.path.join(os.path.dirname(os.path.abspath(__file__)), "..", "lean")
 MODELD = os.path.join(LEAN, ".lake", "build", "bin", "modeld")
-MACHINES = [("skipValue", "skip", "SkipValue"), ("skipValueFast", "fast", "SkipValueFast"),
-            ("handleArrayValues", "harr", "HandleArrayValues"), ("handleObjectValues", "hobj", "HandleObjectValues")]
+# (Go function, labelling kind, Lean module name, abstract machine term, abstract state type, Lean import of the abstract machine)
+MACHINES = [("skipValue", "skip", "SkipValue", "Abs.machine .skip", "RJson.Abs.AS", "RJson.Model.Abs"),
+            ("skipValueFast", "fast", "SkipValueFast", "Abs.machine .fast", "RJson.Abs.AS", "RJson.Model.Abs"),
+            ("handleArrayValues", "harr", "HandleArrayValues", "Abs.machine .harr", "RJson.Abs.AS", "RJson.Model.Abs"),
+            ("handleObjectValues", "hobj", "HandleObjectValues", "Abs.machine .hobj", "RJson.Abs.AS", "RJson.Model.Abs"),
+            ("readNull", "null", "ReadNull", "AbsSmall.lmachine .null", "RJson.AbsSmall.LS", "RJson.Model.AbsSmall"),
+            ("readBool", "bool", "ReadBool", "AbsSmall.lmachine .bool", "RJson.AbsSmall.LS", "RJson.Model.AbsSmall"),
+            ("appendRemainderOfString", "append", "AppendRemainderOfString", "AbsSmall.smachine .append", "RJson.AbsSmall.SS", "RJson.Model.AbsSmall"),
+            ("unescapeStringContent", "unescape", "UnescapeStringContent", "AbsSmall.smachine .unescape", "RJson.AbsSmall.SS", "RJson.Model.AbsSmall")]
 CHUNK = 12
 
 
@@ -33,7 +40,7 @@ def tree(keys, val, default, indent):
 
 def main():
     failed = []
-    for name, kind, mod in MACHINES:
+    for name, kind, mod, absm, abst, absimp in MACHINES:
         out = subprocess.run([MODELD], input="labels %s %s\n" % (name, kind), capture_output=True, text=True, timeout=600).stdout
         if "MISMATCH" in out or "end-labels" not in out:
             msg = [l for l in out.splitlines() if l.startswith("MISMATCH")]
@@ -48,18 +55,18 @@ def main():
         nst = int(re.search(r"def nstates : Nat := (\d+)", src).group(1))
         keys = sorted(entries)
         body = tree(keys, entries, "[]", "  ")
-        lab = ("import RJson.Model.Abs\nimport RJson.Gen.%s\n/-! GENERATED labelling (untrusted BFS output of `modeld labels %s %s`); re-checked by the kernel in RJson.Certs.%s -/\n"
-               "namespace RJson.Gen.%sLabels\n\ndef labelsTab (s : Nat) : List RJson.Abs.AS :=\n  %s\n\n"
-               "def labels (s : Nat) : List RJson.Abs.AS := if s < RJson.Gen.%s.nstates then labelsTab s else []\n\n"
-               "theorem labels_bound : ∀ s, RJson.Gen.%s.nstates ≤ s → labels s = [] := by\n  intro s hs\n  simp [labels, Nat.not_lt.mpr hs]\n\nend RJson.Gen.%sLabels\n") % (mod, name, kind, mod, mod, body, mod, mod, mod)
+        lab = ("import %s\nimport RJson.Gen.%s\n/-! GENERATED labelling (untrusted BFS output of `modeld labels %s %s`); re-checked by the kernel in RJson.Certs.%s -/\n"
+               "namespace RJson.Gen.%sLabels\n\ndef labelsTab (s : Nat) : List %s :=\n  %s\n\n"
+               "def labels (s : Nat) : List %s := if s < RJson.Gen.%s.nstates then labelsTab s else []\n\n"
+               "theorem labels_bound : ∀ s, RJson.Gen.%s.nstates ≤ s → labels s = [] := by\n  intro s hs\n  simp [labels, Nat.not_lt.mpr hs]\n\nend RJson.Gen.%sLabels\n") % (absimp, mod, name, kind, mod, mod, abst, body, abst, mod, mod, mod)
         write_if_changed(os.path.join(LEAN, "RJson", "Gen", mod + "Labels.lean"), lab)
         nchunks = (nst + CHUNK - 1) // CHUNK
         for i in range(nchunks):
             lo = i * CHUNK
             ln = min(CHUNK, nst - lo)
             ch = ("import RJson.Proofs.Sim\nimport RJson.Gen.%s\nimport RJson.Gen.%sLabels\n/-! GENERATED certificate chunk: generated states [%d, %d) of %s against the abstract machine -/\n"
-                  "namespace RJson.Certs.%s\nopen RJson.Ragel\n\nset_option maxRecDepth 100000 in\ntheorem chunk%d : checkRange (checkState Gen.%s.machine (Abs.machine .%s) Gen.%sLabels.labels) %d %d = true := by\n  decide +kernel\n\nend RJson.Certs.%s\n") % (
-                mod, mod, lo, lo + ln, name, mod, i, mod, kind, mod, lo, ln, mod)
+                  "namespace RJson.Certs.%s\nopen RJson.Ragel\n\nset_option maxRecDepth 100000 in\ntheorem chunk%d : checkRange (checkState Gen.%s.machine (%s) Gen.%sLabels.labels) %d %d = true := by\n  decide +kernel\n\nend RJson.Certs.%s\n") % (
+                mod, mod, lo, lo + ln, name, mod, i, mod, absm, mod, lo, ln, mod)
             write_if_changed(os.path.join(LEAN, "RJson", "Certs", mod, "Chunk%d.lean" % i), ch)
         # remove stale chunks
         d = os.path.join(LEAN, "RJson", "Certs", mod)
@@ -86,12 +93,12 @@ def main():
                 chain += "%sexact checkRange_spec chunk%d s (by omega) (by simp [Gen.%s.nstates] at hs; omega)\n" % (ind, i, mod)
         main_ = ("import RJson.Proofs.Sim\n%s/-! GENERATED: assembles the chunk certificates of %s into `checkSim` and applies `sim_sound`. -/\n"
                  "namespace RJson.Certs.%s\nopen RJson.Ragel\n\n"
-                 "theorem start_ok : ((Gen.%sLabels.labels Gen.%s.machine.start).contains (Abs.machine .%s).start && (Gen.%s.machine.maxDepth == (Abs.machine .%s).maxDepth) && (Gen.%s.machine.hasField == (Abs.machine .%s).hasField)) = true := by\n  decide +kernel\n\n"
-                 "theorem states_ok : ∀ s, s < Gen.%s.nstates → checkState Gen.%s.machine (Abs.machine .%s) Gen.%sLabels.labels s = true := by\n  intro s hs\n%s\n"
-                 "theorem sim : checkSim Gen.%s.nstates Gen.%s.machine (Abs.machine .%s) Gen.%sLabels.labels = true :=\n  checkSim_of_parts start_ok states_ok\n\n"
+                 "theorem start_ok : ((Gen.%sLabels.labels Gen.%s.machine.start).contains (%s).start && (Gen.%s.machine.maxDepth == (%s).maxDepth) && (Gen.%s.machine.hasField == (%s).hasField)) = true := by\n  decide +kernel\n\n"
+                 "theorem states_ok : ∀ s, s < Gen.%s.nstates → checkState Gen.%s.machine (%s) Gen.%sLabels.labels s = true := by\n  intro s hs\n%s\n"
+                 "theorem sim : checkSim Gen.%s.nstates Gen.%s.machine (%s) Gen.%sLabels.labels = true :=\n  checkSim_of_parts start_ok states_ok\n\n"
                  "/-- the generated machine and the abstract machine are indistinguishable for the interpreter -/\n"
-                 "theorem run_eq {τ : Type} (data : Bytes) (h : Handler τ) (dst : Bytes) (hs : τ) :\n    runL Gen.%s.machine data h dst hs = runL (Abs.machine .%s) data h dst hs :=\n  sim_sound Gen.%s.nstates _ _ _ Gen.%sLabels.labels_bound sim data h dst hs\n\nend RJson.Certs.%s\n") % (
-            imports, name, mod, mod, mod, kind, mod, kind, mod, kind, mod, mod, kind, mod, chain, mod, mod, kind, mod, mod, kind, mod, mod, mod)
+                 "theorem run_eq {τ : Type} (data : Bytes) (h : Handler τ) (dst : Bytes) (hs : τ) :\n    runL Gen.%s.machine data h dst hs = runL (%s) data h dst hs :=\n  sim_sound Gen.%s.nstates _ _ _ Gen.%sLabels.labels_bound sim data h dst hs\n\nend RJson.Certs.%s\n") % (
+            imports, name, mod, mod, mod, absm, mod, absm, mod, absm, mod, mod, absm, mod, chain, mod, mod, absm, mod, mod, absm, mod, mod, mod)
         write_if_changed(os.path.join(LEAN, "RJson", "Certs", mod + ".lean"), main_)
         print("%s: %d states labelled, %d certificate chunks" % (name, len(entries), nchunks))
     sys.exit(2 if failed else 0)
